@@ -36,7 +36,7 @@ def run(args):
             lines[k] = '// (deleted)'
         open(f, 'w').write('\n'.join(lines))
         env = dict(os.environ, KV_REPO=d, KV_EVIDENCE=os.path.join(d, 'ev'), KV_NO_SELFTEST='1', KV_KEEP_FACTS='1',
-                   KV_TARGET=os.path.join(VERIF, '.cache', 'target-scratch-%d' % (40 + i % jobs)))
+                   KV_TARGET=os.path.join(VERIF, '.cache', 'target-scratch-%d' % (i % jobs)))
         caught = {}
         for p in PROPS:
             x = subprocess.run([os.path.join(VERIF, 'kv'), 'check', p], env=env, stdout=subprocess.PIPE, stderr=subprocess.STDOUT, text=True)
